@@ -20,10 +20,14 @@ RULE = ("BFS over histories of {addCallback / addErrback / addBoth / addCallback
         "Deferreds.  non-trivial = distinct canonical states whose history involved chaining on an "
         "unfired/paused/waiting Deferred, stealing a result, a continuation, or a late/paused add")
 BOUNDS = {
-    "quick": "family A: 2 Deferreds, <=3 pending pairs each, <=2 outstanding user pauses, depth 8; "
-             "family B: 3 Deferreds, <=2 pending pairs each (<=4 total), <=2 outstanding pauses, depth 6",
-    "thorough": "family A: 2 Deferreds, <=3 pending pairs each, <=3 outstanding pauses, depth 10; "
-                "family B: 3 Deferreds, <=3 pending pairs each (<=5 total), <=2 outstanding pauses, depth 7",
+    "quick": "10 families, each one complete BFS (n Deferreds / add methods / behaviours besides return-d_j / max "
+             "pending pairs per Deferred / depth): 2/ceb/vx/2/9, 2/ceb/vx/3/7, 2/addCallbacks(cb[,eb])/vx/3/8, "
+             "2 (Deferred subclass)/cebp/vxf/2/6, 2/b/vx/2/10 with <=4 outstanding pauses, 3/ceb/vx/2/7, "
+             "3/cebp/vxf/2/6, 3 (subclass)/cb/vx/2/8 (these three: <=3 pending pairs in total), "
+             "3/b/v/2/10 with <=3 pauses, 4/b/v/1/9; <=2 outstanding user pauses otherwise",
+    "thorough": "9 families: 2/ceb/vx/3/10, 2/addCallbacks/vxf/3/10, 2 (subclass)/cebp/vxf/3/7, 2/b/vx/3/14 with "
+                "<=5 pauses, 3/ceb/vx/2/9, 3/cebp/vxf/2/7, 3 (subclass)/cb/vx/3/9, 3/b/v/3/14 with <=3 pauses, "
+                "4/b/v/2/10",
 }
 ASSUMPTIONS = [
     "callbacks never fire, pause or add to Deferreds themselves (no re-entrancy: the statement's programs "
@@ -41,31 +45,33 @@ ASSUMPTIONS = [
     "cross-Deferred interleaving of invocations is not compared (the statement orders callbacks per "
     "Deferred); pause counters are used for state merging only, not for the verdict",
 ]
-MIN = {"quick": {"states": 1000, "nontrivial": 500, "outcomes": 12, "transitions": 10000},
-       "thorough": {"states": 1000, "nontrivial": 500, "outcomes": 12}}
+MIN = {"quick": {"states": 97000, "nontrivial": 88000, "outcomes": 13, "transitions": 930000},
+       "thorough": {"states": 550000, "nontrivial": 500000, "outcomes": 13, "transitions": 10000000}}
 LEVEL_TEXT = ("every operation history within the bound is executed on real twisted.internet.defer.Deferred "
               "objects and compared, step by step, with an independent recursive interpreter; no sampling")
 LEVEL_NOTE = "no re-entrant callbacks, no self-returning callbacks, no waits-on cycles; small-scope bound"
 
 KNOWN_STRANDED = "Deferred:callbacks-stranded-behind-paused-chained-Deferred"
 
+
 def _fam(n, kinds, behs, pairs, depth, pauses=2, tpairs=99, sub=False):
     return dict(n=n, kinds=kinds, behs=behs, pairs=pairs, depth=depth, pauses=pauses, tpairs=tpairs, sub=sub)
 
 
 # one BFS per family (cross-shard splitting of one BFS re-explores most states, measured 6x waste):
-# kinds c=addCallback e=addErrback b=addBoth p=addCallbacks(cb, eb) n=addCallbacks(cb); sub=Deferred subclass; behs v=value x=raise f=return Failure (+ d_j always)
+# kinds c=addCallback e=addErrback b=addBoth p=addCallbacks(cb, eb) n=addCallbacks(cb); sub=Deferred subclass;
+# behs v=value x=raise f=return Failure (return d_j is always included); pauses/tpairs are totals over all Deferreds
 CFG = {
     "quick": {
         "2-deep": _fam(2, "ceb", "vx", 2, 9),
         "2-deep3": _fam(2, "ceb", "vx", 3, 7),
-        "2-pairs": _fam(2, "np", "vxf", 3, 8),
+        "2-pairs": _fam(2, "np", "vx", 3, 8),
         "2-full": _fam(2, "cebp", "vxf", 2, 6, sub=True),
         "2-pauses": _fam(2, "b", "vx", 2, 10, pauses=4),
-        "3-mid": _fam(3, "ceb", "vx", 2, 7, tpairs=4),
-        "3-full": _fam(3, "cebp", "vxf", 2, 6, tpairs=4),
-        "3-cb": _fam(3, "cb", "vx", 2, 8, tpairs=4, sub=True),
-        "3-structure": _fam(3, "b", "v", 2, 11, pauses=3),
+        "3-mid": _fam(3, "ceb", "vx", 2, 7, tpairs=3),
+        "3-full": _fam(3, "cebp", "vxf", 2, 6, tpairs=3),
+        "3-cb": _fam(3, "cb", "vx", 2, 8, tpairs=3, sub=True),
+        "3-structure": _fam(3, "b", "v", 2, 10, pauses=3),
         "4-structure": _fam(4, "b", "v", 1, 9),
     },
     "thorough": {
